@@ -198,7 +198,22 @@ func GenHistoryOpt(r *Rng, ver string, size int, oddKeys bool) *History {
 		case 3, 4: // membership of another user: invite / kick / ban / unban
 			target := Pick(r, users)
 			m := Pick(r, []string{"invite", "leave", "ban", "leave"})
-			h.Send(r, b, spec.MRoomMember, sender, sp(target), map[string]interface{}{"membership": m}, nextTS())
+			mc := map[string]interface{}{"membership": m}
+			if r.Chance(10) {
+				// the member name under another spelling, alone or next to the exact name with another value: member
+				// names are exact, so whether this is a control event (a leave / ban of somebody else) and what the auth
+				// rules make of it hangs on the member named exactly `membership`
+				other := Pick(r, []string{"invite", "leave", "ban"})
+				switch r.Intn(3) {
+				case 0:
+					mc = map[string]interface{}{r.otherSpelling("membership"): m}
+				case 1:
+					mc["memberſhip"] = other
+				default:
+					mc["Membership"] = other
+				}
+			}
+			h.Send(r, b, spec.MRoomMember, sender, sp(target), mc, nextTS())
 		case 5, 6: // power levels
 			cur := map[string]interface{}{}
 			if e, ok := b.State[gmsl.StateKeyTuple{EventType: spec.MRoomPowerLevels, StateKey: ""}]; ok {
